@@ -6,6 +6,8 @@ import (
 	"os"
 	"path/filepath"
 	"runtime"
+	"strconv"
+	"strings"
 	"sync"
 	"testing"
 
@@ -155,7 +157,7 @@ func c07CurrentFile() string {
 // halt_on_error) and the driver reports the scenario that was running.
 func TestC07_Concurrent(t *testing.T) {
 	c := collector("C07", "concurrent")
-	rapid.Check(t, func(t *rapid.T) {
+	check(t, func(t *rapid.T) {
 		nd := rapid.IntRange(1, 3).Draw(t, "ndocs")
 		vals := make([]jv.Val, nd)
 		sc := c07Scenario{}
@@ -169,7 +171,25 @@ func TestC07_Concurrent(t *testing.T) {
 		for i := 0; i < ne; i++ {
 			g := &gen.G{T: t, Root: vals[0], Cfg: cfg}
 			var e ast.Expr
-			switch rapid.IntRange(0, 4).Draw(t, "kind") {
+			switch rapid.IntRange(0, 5).Draw(t, "kind") {
+			case 5:
+				// long literals that differ from expression to expression:
+				// whatever the parser keeps between calls (caches, pools,
+				// scratch buffers) is then shared by goroutines that parse
+				// different texts at the same time
+				salt := rapid.IntRange(0, 3).Draw(t, "salt")
+				n := rapid.IntRange(20, 60).Draw(t, "litlen")
+				arr := make([]jv.Val, n)
+				for k := range arr {
+					arr[k] = jv.VInt(int64(100*i + 10*salt + k))
+				}
+				obj := jv.VObj([]jv.Member{{K: "id", V: jv.VInt(int64(1000*i + salt))}, {K: "pad", V: jv.VStr(strings.Repeat("p", n+20))}, {K: "list", V: jv.VArr(arr[:5])}})
+				e = &ast.Chain{Head: ast.Head{Kind: ast.HMultiList, Items: []ast.Expr{
+					ast.Lit(jv.VArr(arr)).With(ast.Step{Kind: ast.SIndex, Index: int64(rapid.IntRange(0, n-1).Draw(t, "litidx"))}),
+					ast.Lit(obj).With(ast.Step{Kind: ast.SField, Name: "id"}),
+					ast.Call("length", ast.A(ast.Lit(jv.VStr(strings.Repeat("s", 64+i+salt))))),
+					ast.RawS(strings.Repeat("r", 70+i) + strconv.Itoa(salt)),
+					g.Expr(vals[0], 1)}}}
 			case 0:
 				e = ast.Call(gen.Pick(t, "fn", []string{"sort", "reverse", "sort_by", "group_by", "merge", "join", "to_string"}), ast.A(g.Chain(vals[0], 1)))
 				if c, ok := e.(*ast.Chain); ok && c.Head.Name == "merge" {
